@@ -18,6 +18,14 @@ static ALLOC: engine::GuardAlloc = engine::GuardAlloc;
 fn main() {
     let args = engine::parse_args();
     engine::install_quiet_panic_hook();
+    // C04's BFS, C19's BFS and C23 keep their search state in one process: run that process
+    // as a child so that an abort inside the subject is a violation, not a dead check
+    if matches!(args.property.as_str(), "C04" | "C19" | "C23") {
+        let level = "model_checking";
+        if let Some(code) = engine::run_whole_in_child(&args, level) {
+            std::process::exit(code);
+        }
+    }
     let code = match args.property.as_str() {
         "C01" => c01::run(&args),
         "C02" | "C03" => c0203::run(&args),
